@@ -869,9 +869,15 @@ def inline_stmts(callee, call, recv=None):
     ren = {}
     pre = []
     if skip:
-        if not isinstance(recv, ast.Name):
+        if isinstance(recv, ast.Name):
+            ren[callee.args.args[0].arg] = recv.id
+        elif _pure(recv):
+            # a receiver reached through a pure attribute chain (`ode.jac.pattern()`): bound to a fresh local first
+            fresh = f"_inl{k}_{callee.args.args[0].arg}"
+            ren[callee.args.args[0].arg] = fresh
+            pre.append(ast.Assign(targets=[ast.Name(id=fresh, ctx=ast.Store())], value=copy.deepcopy(recv)))
+        else:
             return None
-        ren[callee.args.args[0].arg] = recv.id
     body = copy.deepcopy(_callee_body(callee))
     # a parameter that the callee only edits IN PLACE (p[i] = .., p.append(..)) is the caller's object under another name: it is
     # renamed to the argument, so that the edits are seen on the caller's variable; only a parameter the callee re-binds needs a
@@ -1005,6 +1011,25 @@ def inline_stmt_calls(func, resolve, max_depth: int = 3):
                         for b in new:
                             ast.copy_location(b, st) if not hasattr(b, "lineno") else None
                         out.extend(expand(new, depth + 1))
+                        continue
+            if isinstance(st, ast.For) and depth < max_depth:
+                # a loop over the list a statement helper builds and returns (`for col, t in self._partials(..):`, also inside
+                # enumerate / zip): the iterable is evaluated once, before the loop -- the helper's statements go in front of it
+                is_stmts = lambda c_: (lambda r_: r_ is not None and r_[0] is not func and _simple_callee(r_[0]) == "stmts")(resolve(c_))
+                hit = st.iter if isinstance(st.iter, ast.Call) and is_stmts(st.iter) and all(_pure(a) for a in st.iter.args) \
+                    and all(_pure(k.value) for k in st.iter.keywords) else _first_nested_call(st.iter, is_stmts)
+                if hit is not None:
+                    callee, recv = resolve(hit)
+                    res = inline_stmts(callee, hit, recv)
+                    if res is not None and res[1] is not None:
+                        body, ret = res
+                        st.iter = ret if hit is st.iter else _ReplaceNode(hit, ret).visit(st.iter)
+                        for b in body:
+                            ast.copy_location(b, st) if not hasattr(b, "lineno") else None
+                            ast.fix_missing_locations(b)
+                        ast.fix_missing_locations(st)
+                        out.extend(expand(body, depth + 1))
+                        out.append(st)
                         continue
             c = value_of(st)
             if isinstance(c, ast.Call) and depth < max_depth:
@@ -1202,9 +1227,14 @@ def _renamed_body(callee, call, recv=None):
     k = next(_counter)
     ren, pre = {}, []
     if skip:
-        if not isinstance(recv, ast.Name):
+        if isinstance(recv, ast.Name):
+            ren[callee.args.args[0].arg] = recv.id
+        elif _pure(recv):
+            fresh = f"_inl{k}_{callee.args.args[0].arg}"
+            ren[callee.args.args[0].arg] = fresh
+            pre.append(ast.Assign(targets=[ast.Name(id=fresh, ctx=ast.Store())], value=copy.deepcopy(recv)))
+        else:
             return None
-        ren[callee.args.args[0].arg] = recv.id
     body = copy.deepcopy(_callee_body(callee))
     stored = {n.id for b in body for n in ast.walk(b) if isinstance(n, ast.Name) and isinstance(n.ctx, (ast.Store, ast.Del))}
     for p, e in given.items():
